@@ -72,6 +72,8 @@ def run(R):
             c.check(okk and okt, f, k, 'the child is created for the given command with %s and the caller\'s logfile / cwd / env / keywords'
                     % ('the spawn default timeout (timeout == -1)' if inm1 else 'timeout=timeout'), witness=norm(k)[:120], kind='ast', tag='spawn-args:%s' % ('default' if inm1 else 'explicit'))
         c.check(all(isinstance(n.ast, ast.Assign) and 'child' in assigned_names(n.ast) for n, k in sps), f, sps[0][1], 'both forms bind the same child variable', kind='ast', tag='child-bound')
+    with R.clause('D7', 'STOP', floor=1, desc='an EOF outcome ends the loop even when EOF is one of the events') as c:
+        check_eof_stops(c, f, loop)
     with R.clause('D5', 'CONSUMED', floor=1, desc='text appended on a path that keeps looping has been consumed from the pending text') as c:
         check_consumed(c, f, loop)
 
@@ -231,6 +233,42 @@ def check_dispatch(c, f, loop):
             c.check(bool(brk), f, t4[0].ast if t4 else t3[0].ast, 'a true result stops the run', kind='path', tag='callback-stop')
 
 
+def check_eof_stops(c, f, loop):
+    """expect() keeps answering EOF once the stream has ended (C04), so a loop iteration whose outcome was EOF must be the last one:
+    otherwise run(cmd, events={EOF: f}) calls f again and again and never returns"""
+    g = f.cfg
+    hdr = g.node_of_stmt(loop)
+    inloop = lambda n: n.stmt is not None and any(p is loop for p in [n.stmt] + list(parent_chain(n.stmt)))
+    stops = []
+    for t in g.nodes:
+        if t.kind != 'test' or t.ast is None or not inloop(t):
+            continue
+        r = relation(t.ast)
+        lab = None
+        if r and r[0] in ('is', 'eq') and {norm(r[1]), norm(r[2])} == {'child.after', 'EOF'}:
+            lab = r[3]
+        else:
+            co, tl = truth(t.ast)
+            if norm(co) in ('child.flag_eof', 'child.eof()'):
+                lab = tl
+        if lab is None:
+            continue
+        nxt = [s for s, l in t.succ if l == lab]
+        if nxt and g.path(nxt[0], {hdr}, skip_labels=('exc', 'raise')) is None and nxt[0] is not hdr:
+            stops.append(t)
+    exps = cfg_nodes_with_call(f, lambda k: callee_last(k) == 'expect')
+    c.need(len(exps) == 1, 'run(): child.expect(...) not found')
+    en = exps[0][0]
+    if not stops:
+        p = g.path(en, {hdr}, skip_labels=('exc', 'raise'), include_start=False)
+        c.bad(f, exps[0][1], 'when EOF is one of the events the iteration that saw EOF goes round the loop again (nothing tests for the end of the stream '
+              'on the normal path): expect() reports EOF again at once, the response is triggered again, and run() never returns unless a callback '
+              'returns true', witness='path back to the loop: ' + (g.describe_path(p) if p else '?'), kind='path', tag='eof-event-loops')
+        return
+    ok, p = g.must_pass(en, {hdr}, set(stops), skip_labels=('exc', 'raise'))
+    c.check(ok, f, stops[0].ast, 'every way back to the top of the loop passes the end-of-stream test', witness=g.describe_path(p) if p else None, kind='path', tag='eof-event-loops')
+
+
 def check_consumed(c, f, loop):
     g = f.cfg
     hdr = g.node_of_stmt(loop)
@@ -257,6 +295,8 @@ def check_consumed(c, f, loop):
 
 
 MUTANTS = [
+    ('eof-event-keeps-looping', 'run', "            if child.after is EOF:\n", "            if child.after is EOF and not responses:\n", 'D7'),
+    ('eof-event-stop-removed', 'run', "            if child.after is EOF:\n                # EOF was one of the events: it has been answered, and the\n                # stream has ended, so there is nothing more to wait for.\n                break\n", "", 'D7'),
     ('list-via-dict', 'run', "    if isinstance(events, list):\n        patterns= [x for x,y in events]\n        responses = [y for x,y in events]\n    elif isinstance(events, dict):", "    if isinstance(events, list):\n        events = dict(events)\n    if isinstance(events, dict):", 'D1'),
     ('close-status-first', 'pty_spawn', "        self.flush()\n        with _wrap_ptyprocess_err():\n            # PtyProcessError may be raised if it is not possible to terminate\n            # the child.\n            self.ptyproc.close(force=force)\n        self.isalive()  # Update exit status from ptyproc", "        self.flush()\n        self.isalive()  # Update exit status from ptyproc\n        with _wrap_ptyprocess_err():\n            # PtyProcessError may be raised if it is not possible to terminate\n            # the child.\n            self.ptyproc.close(force=force)", 'D4'),
     ('timeout-sentinel-inverted', 'run', "    if timeout == -1:\n        child = spawn(command, maxread=2000,", "    if timeout != -1:\n        child = spawn(command, maxread=2000,", 'D6'),
